@@ -31,6 +31,8 @@ DECIDED = [
     "C14.4 link mode: symlink only if no real data at the cache path; unlink only of links; a symlink is never uploaded",
     "C14.5 image_lock typestate: yield only after lockf succeeded; bounded wait; exhaustion raises; unlock in finally; fd from `with open`",
     "C14.6 SKIP_LOCKS is False and never assigned; the lock file is never deleted",
+    "C14.7 no (transitively) nested image_lock inside a locked section — the inner release would drop the outer per-process lock",
+    "C14.2f the compare that guards each copy hashes both files when asked (no cached or metadata-only comparison)",
 ]
 NOT_DECIDED = ["byte identity of shutil.copy", "POSIX lock semantics across processes and crashes", "remote pools (no remote lock support in the code)"]
 ASSUMPTIONS = ["fcntl.lockf gives mutual exclusion between processes on the same lock file and is dropped when the descriptor is closed"]
@@ -260,7 +262,54 @@ def skip_locks(ctx: Ctx, rule: str) -> None:
                "" if ok and not stores else "locking can be switched off inside the package")
 
 
+def no_nested_lock(ctx: Ctx, rule: str) -> None:
+    """fcntl record locks are per process and per file: a nested image_lock on the way out closes its descriptor and thereby
+    drops the OUTER lock too.  So nothing called from inside a locked section may (transitively) acquire image_lock."""
+    funcs = {f.ref: f for f in ctx.repo.all_functions((POOL,))}
+    by_name: dict[str, list] = {}
+    for f in funcs.values():
+        by_name.setdefault(f.qualname.split(".")[-1], []).append(f)
+    direct = {ref for ref, f in funcs.items() if _locks(f.node) and f.qualname != "image_lock"}
+
+    def callees(node: ast.AST):
+        out = set()
+        for c in calls_in(node):
+            recv = ast.unparse(c.func.value) if isinstance(c.func, ast.Attribute) else ""
+            if recv in ("", "cls", "self", "TransferOps", "ops") or recv.endswith("Ops"):
+                for g in by_name.get(call_name(c), []):
+                    out.add(g.ref)
+        return out
+
+    acquiring = set(direct)
+    changed = True
+    while changed:
+        changed = False
+        for ref, f in funcs.items():
+            if ref not in acquiring and callees(f.node) & acquiring:
+                acquiring.add(ref)
+                changed = True
+    n = 0
+    for ref in sorted(direct):
+        f = funcs[ref]
+        ctx.touch(ref)
+        for w in _locks(f.node):
+            n += 1
+            inner = [x for st in w.body for x in _locks(st)]
+            reach = sorted(set().union(*[callees(st) for st in w.body]) & acquiring) if w.body else []
+            ok = not inner and not reach
+            ctx.record(rule, "TYPESTATE", ref, "nothing inside the locked section acquires image_lock again (directly or through a callee)", ok,
+                       {"callees_in_section": sorted(set().union(*[callees(st) for st in w.body]))},
+                       "" if ok else f"nested image_lock inside the locked section of {f.qualname} via {reach or 'a nested with'}: releasing the inner lock closes the descriptor and drops the outer lock (fcntl locks are per process)")
+    if n < 4:
+        raise AnalysisError(f"only {n} locked sections found in {POOL}, expected at least 4")
+    ctx.note(f"{rule}: functions acquiring the lock transitively: {len(acquiring)}")
+
+
 def run(ctx: Ctx) -> None:
+    from .c13 import fresh_checksums
+
+    ctx.call(fresh_checksums, "2f")
+    ctx.call(no_nested_lock, "7")
     ctx.call(lock_discipline, "1")
     ctx.call(compare_then_copy, "2")
     ctx.call(link_mode, "4")
@@ -286,6 +335,8 @@ MUTANTS = [
     ("data-replaced-by-link", POOL, "            if not os.path.islink(cache_path) and os.path.exists(cache_path):\n                raise RuntimeError(", "            if not os.path.islink(cache_path) and not os.path.exists(cache_path):\n                raise RuntimeError(", "4"),
     ("upload-direction", POOL, "            shutil.copy(cache_path, pool_path)", "            shutil.copy(pool_path, cache_path)", "2d"),
     ("shared-lock", POOL, "fcntl.lockf(fd, fcntl.LOCK_EX | fcntl.LOCK_NB)", "fcntl.lockf(fd, fcntl.LOCK_SH | fcntl.LOCK_NB)", "5t"),
+    ("nested-lock-in-compare", POOL, "            remote_hash = crypto.hash_file(pool_path, 1048576, \"md5\")", "            with image_lock(pool_path, 300) as lock:\n                remote_hash = crypto.hash_file(pool_path, 1048576, \"md5\")", "7"),
+    ("shallow-compare", POOL, "        return local_hash == remote_hash\n\n    @staticmethod\n    def compare_remote", "        return os.path.getsize(cache_path) == os.path.getsize(pool_path)\n\n    @staticmethod\n    def compare_remote", "2f"),
     ("skip-locks-on", POOL, "SKIP_LOCKS = False", "SKIP_LOCKS = True", "6"),
     ("swallow-all-errors", POOL, "                if error.errno != errno.EACCES and error.errno != errno.EAGAIN:\n                    raise", "                if error.errno != errno.EACCES and error.errno != errno.EAGAIN:\n                    break", "5t"),
     ("P-with-as-unused", POOL, "        with image_lock(pool_path, update_timeout) as lock:\n            os.unlink(pool_path)", "        with image_lock(pool_path, update_timeout):\n            os.unlink(pool_path)", None),
